@@ -273,6 +273,65 @@ def sec_filter(rec, shapes=(), patches=None):
                               key=f"C16/filter_ft/weighted-spectrum[{impl}]", names=names, twin=False)
 
 
+def sec_weight_history(rec, shape=(3, 2, 4), only_impl=None, seq_ids=None, patches=None):
+    """memoisation must not leak between calls: with functools.lru_cache left ACTIVE, a sequence of calls with
+    different orders / flags on the same shape and cut-off must each return the Butterworth weights"""
+    L = load.load(MODS, patches=patches, keep_cache=True)
+    rec.encodes("acryo/_utils.py:nd_butterworth_weight (lru_cache active)", "acryo/backend/_bandpass.py:nd_butterworth_weight (lru_cache active)")
+    cutoff = real("cutoff")
+    hyps = [cutoff.e > 0]
+    impls = _impls(L, FFTStub("opaque"))
+    seqs = [[(2, False), (3, False), (1, False), (2, False)], [(2, True), (1, True), (2, False), (3, True)], [(1, False), (1, True), (3, False)]]
+    for impl, fns in impls.items():
+        if only_impl and impl != only_impl:
+            continue
+        for si, seq in enumerate(seqs):
+            if seq_ids is not None and si not in seq_ids:
+                continue
+
+            def run():
+                for mod in L.values():
+                    for v in vars(mod).values():
+                        if hasattr(v, "cache_clear"):
+                            v.cache_clear()
+                return [fns["weight"](tuple(shape), cutoff, o, r) for (o, r) in seq]
+
+            paths = explore(run, assumptions=hyps)
+            tag = f"history[{impl},{shape},seq{si}]"
+
+            def rp(cex, impl=impl, seq=seq):
+                c = fl(cex.get("cutoff", 0.3)) or 0.3
+                from acryo import _utils
+                from acryo.backend import Backend, _bandpass
+
+                _utils.nd_butterworth_weight.cache_clear()
+                _bandpass.nd_butterworth_weight.cache_clear()
+                for name in dir(_utils):
+                    f = getattr(_utils, name)
+                    if hasattr(f, "cache_clear"):
+                        f.cache_clear()
+                worst = 0.0
+                for (o, r) in seq:
+                    w = _utils.nd_butterworth_weight(tuple(shape), c, o, r) if impl == "utils" else _bandpass.nd_butterworth_weight(tuple(shape), c, o, r, Backend())
+                    freqs = np.meshgrid(*[np.fft.fftfreq(n) for n in shape], indexing="ij")
+                    ref = 1 / (1 + (sum(f ** 2 for f in freqs) / c ** 2) ** o)
+                    if r:
+                        ref = ref[..., : shape[-1] // 2 + 1]
+                    worst = max(worst, float(np.abs(np.broadcast_to(w, ref.shape) - ref).max()))
+                return worst > 1e-5, {"max_abs_err": worst, "sequence": [list(x) for x in seq], "impl": impl, "shape": list(shape), "cutoff": c}
+
+            for pi, p in enumerate(paths):
+                if not p.ok:
+                    rec.fact(f"{tag}/runs", False, key="C16/weight-history/raises", detail={"exc": repr(p.exc)}, reproduced=rp({})[0])
+                    continue
+                for ci, ((o, r), w) in enumerate(zip(seq, p.result)):
+                    want_shape = tuple(shape[:-1]) + ((shape[-1] // 2 + 1) if r else shape[-1],)
+                    wb = np.broadcast_to(w.view(np.ndarray), want_shape)
+                    for idx in np.ndindex(want_shape):
+                        rec.query(f"{tag}/call{ci}(order={o},real={int(r)})/bin{idx}", hyps, zr(wb[idx]) == w_ref(idx, shape, cutoff.e, o),
+                                  key=f"C16/weight-history[{impl}]", names={"cutoff"}, replay=rp, twin=False)
+
+
 def A_obj(a):
     from symx.arrays import _obj
 
@@ -382,7 +441,11 @@ def _shapes(tier):
 
 
 def sections(tier):
-    S = [("conformance", "checks.c16", "sec_conformance", {}), ("plumbing", "checks.c16", "sec_plumbing", {})]
+    S = [("conformance", "checks.c16", "sec_conformance", {}), ("plumbing", "checks.c16", "sec_plumbing", {}),
+         ]
+    for impl in ("utils", "backend"):
+        for si in range(3):
+            S.append((f"weight-history-{impl}-seq{si}", "checks.c16", "sec_weight_history", {"shape": (3, 2, 4) if quick(tier) else (3, 5, 4), "only_impl": impl, "seq_ids": [si]}))
     shapes = _shapes(tier)
     # order 3 (degree-6 identities, ~0.7 s per bin) only on the smaller boxes
     for i, shp in enumerate(shapes):
@@ -399,6 +462,9 @@ def sections(tier):
 _U = "acryo._utils"
 _BP = "acryo.backend._bandpass"
 MUTANTS = [
+    ("history:in-place-power-on-cached-grid", "checks.c16", "sec_weight_history", {"shape": (2, 2, 3), "only_impl": "utils", "seq_ids": [0]},
+     {_U: [("    ranges = []\n    for d in shape:\n        axis = np.arange(-(d - 1) // 2, (d - 1) // 2 + 1, dtype=np.float32) / (\n            d * cutoff\n        )\n        ranges.append(np.fft.ifftshift(axis**2))\n    if real:\n        limit = shape[-1] // 2 + 1\n        ranges[-1] = ranges[-1][:limit]\n    q2 = reduce(np.add, np.meshgrid(*ranges, indexing=\"ij\", sparse=True))\n    wfilt = 1 / (1 + q2**order)\n    return wfilt\n",
+            "    q2 = _q2_grid(shape, cutoff, real)\n    q2 **= order\n    return 1 / (1 + q2)\n\n\n@lru_cache(maxsize=4)\ndef _q2_grid(shape, cutoff, real):\n    ranges = []\n    for d in shape:\n        axis = np.arange(-(d - 1) // 2, (d - 1) // 2 + 1, dtype=np.float32) / (\n            d * cutoff\n        )\n        ranges.append(np.fft.ifftshift(axis**2))\n    if real:\n        limit = shape[-1] // 2 + 1\n        ranges[-1] = ranges[-1][:limit]\n    return reduce(np.add, np.meshgrid(*ranges, indexing=\"ij\", sparse=True))\n")]}),
     ("weight:fftshift-vs-ifftshift", "checks.c16", "sec_weights", {"shapes": [(3, 3, 5)], "orders": (2,)}, {_U: [("ranges.append(np.fft.ifftshift(axis**2))", "ranges.append(np.fft.fftshift(axis**2))")]}),
     ("weight:exponent", "checks.c16", "sec_weights", {"shapes": [(2, 2, 3)], "orders": (2,)}, {_U: [("    wfilt = 1 / (1 + q2**order)\n    return wfilt\n\n\n_F = TypeVar", "    wfilt = 1 / (1 + q2 ** (2 * order))\n    return wfilt\n\n\n_F = TypeVar")]}),
     ("weight:half-limit", "checks.c16", "sec_weights", {"shapes": [(2, 2, 4)], "orders": (1,)}, {_BP: [("        limit = shape[-1] // 2 + 1", "        limit = (shape[-1] + 1) // 2")]}),
